@@ -28,10 +28,12 @@ import KinModel.Lemmas.C05Str
 import KinModel.Lemmas.C05Dec
 import KinModel.Lemmas.C05Cells
 import KinModel.Lemmas.C05Eq
+import KinModel.Lemmas.C05Req
 import KinModel.Lemmas.C05Nest
 import KinModel.StyleContent
 import KinModel.Gen.StyleCells
 import KinModel.Gen.DecoderFmt
+import KinModel.Gen.RequestLoops
 namespace KinModel.Style
 
 /-! ### primitive texts -/
@@ -1572,5 +1574,256 @@ theorem decoderFmt_guards_and_calls :
     (Gen.decoderFmt.filter (fun r => match r with | .guard _ _ _ _ => true | _ => false)).length = 8 ∧
     (Gen.decoderFmt.filter (fun r => match r with | .assign _ _ _ => true | _ => false)).length = 2 := by
   decide
+
+/-! ### ValidateRequest: which parameters of a route are checked, and what a sequence of calls does (StyleRequest.lean) -/
+
+/-- **history**: any sequence of ValidateRequest calls (any options, any requests) on one loaded document leaves the
+document as it was, and every call answers as if it were the first one. -/
+theorem runCalls_history_free (d : Doc) (cs : List (CallOpts × FullReq)) :
+    runCalls d cs = (d, cs.map (fun c => validateRequestParams d c.1 c.2)) := by
+  induction cs with
+  | nil => rfl
+  | cons c cs ih => simp [runCalls, stepCall, ih]
+
+/-- a call made after any history answers like a call on the freshly loaded document (corollary) -/
+theorem runCalls_last_call (d : Doc) (cs : List (CallOpts × FullReq)) (c : CallOpts × FullReq) :
+    (runCalls d (cs ++ [c])).2 = (runCalls d cs).2 ++ [validateRequestParams d c.1 c.2] := by
+  simp [runCalls_history_free]
+
+/-- the code accepts the parameters of a request exactly when every applicable parameter (the operation's own and
+the path item's that the operation does not redeclare) that the options do not exclude is accepted by
+ValidateParameter — for every document, option set and request. -/
+theorem request_ok_iff (d : Doc) (o : CallOpts) (fr : FullReq) :
+    validateRequestParams d o fr = .ok ↔
+      ∀ p ∈ effective d, excluded o p = true ∨ validateParameter p (reqFor p fr) = .accept := by
+  unfold validateRequestParams requestErrors
+  rw [outOf_ok, List.filterMap_eq_nil_iff]
+  constructor
+  · intro h p hp
+    cases hx : excluded o p
+    · exact Or.inr ((errOf_none _ _ _).1 (h p ((mem_visited d o p).2 ⟨hp, hx⟩)))
+    · exact Or.inl rfl
+  · intro h p hp
+    obtain ⟨h1, h2⟩ := (mem_visited d o p).1 hp
+    rcases h p h1 with h3 | h3
+    · rw [h2] at h3; cases h3
+    · exact (errOf_none _ _ _).2 h3
+
+/-- **override**: a path-item parameter that the operation redeclares (same location and name) is never validated:
+the result is that of the document without it. -/
+theorem override_replaces (pi ops : List Param) (o : CallOpts) (fr : FullReq) :
+    validateRequestParams ⟨pi, ops⟩ o fr =
+      validateRequestParams ⟨pi.filter (fun p => !declares ops p.cell.loc p.name), ops⟩ o fr := by
+  unfold validateRequestParams requestErrors visited
+  simp only [List.filter_filter, pathItemKept]
+  congr 3
+  apply List.filter_congr
+  intro p _
+  cases h1 : excluded o p <;> cases h2 : declares ops p.cell.loc p.name <;> simp [pathItemKept, h1, h2]
+
+/-- an error the code reports for a location and name comes from the *operation's* declaration whenever the operation
+declares that location and name -/
+theorem override_error_source (d : Doc) (o : CallOpts) (fr : FullReq) (p : Param)
+    (hp : p ∈ visited d o) (hd : declares d.operation p.cell.loc p.name = true) : p ∈ d.operation := by
+  simp only [visited, pathItemKept, operationKept, List.mem_append, List.mem_filter, Bool.and_eq_true] at hp
+  rcases hp with ⟨_, _, h3⟩ | ⟨h1, _⟩
+  · rw [hd] at h3; cases h3
+  · exact h1
+
+/-- ExcludeRequestQueryParams: no error of a query parameter, whatever the document and the request -/
+theorem excludeQuery_no_query_error (val : Param → Req → Verdict) (d : Doc) (o : CallOpts) (fr : FullReq)
+    (ho : o.excludeQuery = true) : ∀ e ∈ requestErrors val d o fr, e.1 ≠ .query := by
+  intro e he
+  simp only [requestErrors, List.mem_filterMap] at he
+  obtain ⟨p, hp, hpe⟩ := he
+  obtain ⟨_, hx⟩ := (mem_visited d o p).1 hp
+  unfold errOf at hpe
+  by_cases hv : val p (reqFor p fr) = .accept
+  · simp [hv] at hpe
+  · simp only [hv, if_false, Option.some.injEq] at hpe
+    subst hpe
+    intro hq
+    simp [excluded, ho] at hx
+    exact hx hq
+
+/-- **code = specification for whole requests** (the full-strength statement, without `hs`, is false:
+`request_eq_spec_witness`). When every applicable parameter is in the scope of `validate_eq_spec_partial`, the set of
+errors of both loops is the set of failures the specification names — every document (path item and operation lists
+of any length, with any overrides), every option set, every request. -/
+theorem request_errors_eq_spec_partial (d : Doc) (o : CallOpts) (fr : FullReq)
+    (hs : ∀ p ∈ effective d, ParamInScope p) :
+    ∀ e, e ∈ requestErrors validateParameter d o fr ↔ e ∈ specFailures d o fr := by
+  intro e
+  simp only [requestErrors, specFailures, List.mem_filterMap, List.mem_filter]
+  have key : ∀ p ∈ effective d, errOf validateParameter fr p = errOf validateSpec fr p := by
+    intro p hp
+    obtain ⟨l, h1, h2, h3, h4, h5, h6⟩ := hs p hp
+    unfold errOf
+    rw [validate_eq_spec_partial p (reqFor p fr) l h1 h2 h3 h4 h5 h6]
+  constructor
+  · rintro ⟨p, hp, he⟩
+    obtain ⟨h1, h2⟩ := (mem_visited d o p).1 hp
+    exact ⟨p, ⟨h1, by simp [h2]⟩, by rw [← key p h1]; exact he⟩
+  · rintro ⟨p, ⟨h1, h2⟩, he⟩
+    refine ⟨p, (mem_visited d o p).2 ⟨h1, by simpa using h2⟩, by rw [key p h1]; exact he⟩
+
+/-- … as lists: the errors the code collects (MultiError) are a permutation of the specification's failures — same
+parameters, same kinds, same multiplicities (a parameter validated twice would break this) -/
+theorem request_errors_perm_spec_partial (d : Doc) (o : CallOpts) (fr : FullReq)
+    (hs : ∀ p ∈ effective d, ParamInScope p) :
+    (requestErrors validateParameter d o fr).Perm (specFailures d o fr) := by
+  have key : ∀ p ∈ effective d, errOf validateParameter fr p = errOf validateSpec fr p := by
+    intro p hp
+    obtain ⟨l, h1, h2, h3, h4, h5, h6⟩ := hs p hp
+    unfold errOf
+    rw [validate_eq_spec_partial p (reqFor p fr) l h1 h2 h3 h4 h5 h6]
+  have hv : (visited d o).Perm ((effective d).filter (fun p => !excluded o p)) := by
+    unfold visited effective
+    rw [List.filter_append, List.filter_filter]
+    refine List.Perm.trans List.perm_append_comm ?_
+    apply List.Perm.of_eq
+    congr 1
+  unfold requestErrors specFailures
+  refine List.Perm.trans (List.Perm.filterMap _ hv) ?_
+  apply List.Perm.of_eq
+  apply filterMap_congr'
+  intro p hp
+  exact key p (List.mem_filter.1 hp).1
+
+/-- MultiError does not change acceptance: the request passes with `MultiError` exactly when it passes without, and
+the single error returned without it is the first of the collected ones -/
+theorem request_multi_same_acceptance (d : Doc) (ex : Bool) (fr : FullReq) :
+    (validateRequestParams d ⟨ex, true⟩ fr = .ok ↔ validateRequestParams d ⟨ex, false⟩ fr = .ok) ∧
+    (∀ e, validateRequestParams d ⟨ex, false⟩ fr = .first e →
+      ∃ es, validateRequestParams d ⟨ex, true⟩ fr = .multi (e :: es)) := by
+  have hre : requestErrors validateParameter d ⟨ex, true⟩ fr = requestErrors validateParameter d ⟨ex, false⟩ fr := by
+    rfl
+  unfold validateRequestParams
+  rw [hre]
+  constructor
+  · rw [outOf_ok, outOf_ok]
+  · intro e h
+    cases hl : requestErrors validateParameter d ⟨ex, false⟩ fr with
+    | nil => rw [hl] at h; simp [outOf] at h
+    | cons a as =>
+      rw [hl] at h
+      simp [outOf] at h
+      exact ⟨as, by simp [outOf, h]⟩
+
+/-- loop order: with MultiError the errors of path-item parameters come before those of operation parameters -/
+theorem request_errors_order (val : Param → Req → Verdict) (d : Doc) (o : CallOpts) (fr : FullReq) :
+    requestErrors val d o fr =
+      (d.pathItem.filter (pathItemKept o d.operation)).filterMap (errOf val fr) ++
+      (d.operation.filter (operationKept o)).filterMap (errOf val fr) := by
+  simp [requestErrors, visited, List.filterMap_append]
+
+/-- identity of a parameter is location AND name: a path-item parameter is not replaced by an operation parameter of
+the same name in another location (`id` in the path, `id` in the query) -/
+theorem override_needs_same_location :
+    let pid : Param := ⟨⟨.path, .simple, false⟩, "id".toList, true, false, .leaf (.prim { t := .integer })⟩
+    let qid : Param := ⟨⟨.query, .form, true⟩, "id".toList, false, false, .leaf (.prim { t := .string })⟩
+    visited ⟨[pid], [qid]⟩ ⟨false, false⟩ = [pid, qid] ∧ effective ⟨[pid], [qid]⟩ = [qid, pid] ∧
+    validateRequestParams ⟨[pid], [qid]⟩ ⟨false, false⟩ { pathParams := [("id".toList, ['x'])], query := [("id".toList, [['x']])] }
+      = .first (.path, "id".toList, .parse) := by
+  decide
+
+/-- … and therefore the code accepts exactly the requests the specification accepts -/
+theorem request_ok_iff_spec_partial (d : Doc) (o : CallOpts) (fr : FullReq)
+    (hs : ∀ p ∈ effective d, ParamInScope p) :
+    validateRequestParams d o fr = .ok ↔ SpecAccepts d o fr := by
+  rw [request_ok_iff]
+  unfold SpecAccepts
+  constructor
+  · intro h p hp
+    obtain ⟨l, h1, h2, h3, h4, h5, h6⟩ := hs p hp
+    rw [← validate_eq_spec_partial p (reqFor p fr) l h1 h2 h3 h4 h5 h6]
+    exact h p hp
+  · intro h p hp
+    obtain ⟨l, h1, h2, h3, h4, h5, h6⟩ := hs p hp
+    rw [validate_eq_spec_partial p (reqFor p fr) l h1 h2 h3 h4 h5 h6]
+    exact h p hp
+
+/-- … for every history: the answers of a call sequence are the specification's, call by call -/
+theorem runCalls_eq_spec_partial (d : Doc) (cs : List (CallOpts × FullReq))
+    (hs : ∀ p ∈ effective d, ParamInScope p) :
+    (runCalls d cs).1 = d ∧
+    ∀ c ∈ cs, (validateRequestParams d c.1 c.2 = .ok ↔ SpecAccepts d c.1 c.2) := by
+  rw [runCalls_history_free]
+  exact ⟨rfl, fun c _ => request_ok_iff_spec_partial d c.1 c.2 hs⟩
+
+/-- witness (outside `hs`): the CookieExplode parameter of `cookie_explode_witness` as an operation parameter — the
+code refuses a request the specification accepts -/
+theorem request_eq_spec_witness :
+    let p : Param := ⟨⟨.cookie, .form, true⟩, ['p'], false, false, intArr⟩
+    let d : Doc := ⟨[], [p]⟩
+    let fr : FullReq := { cookies := [(['p'], "1,2".toList)] }
+    validateRequestParams d ⟨false, false⟩ fr = .first (.cookie, ['p'], .badMethod) ∧
+    specAcceptsB d ⟨false, false⟩ fr = true := by
+  decide
+
+/-- the operation's `limit` (optional, maximum 100) replaces the path item's (required, maximum 10); `seq` comes from
+the path item only: kernel-checked on the model and the specification, with and without ExcludeRequestQueryParams -/
+theorem request_override_example :
+    let lim (req : Bool) (mx : Int) : Param := ⟨⟨.query, .form, true⟩, "limit".toList, req, false, .leaf (.prim { t := .integer, max := some mx })⟩
+    let seq : Param := ⟨⟨.header, .simple, false⟩, "X-Seq".toList, true, false, .leaf (.prim { t := .integer })⟩
+    let d : Doc := ⟨[lim true 10, seq], [lim false 100]⟩
+    let q (v : String) : FullReq := { query := [("limit".toList, [v.toList])], headers := [("X-Seq".toList, [['1']])] }
+    validateRequestParams d ⟨false, true⟩ (q "50") = .ok ∧
+    validateRequestParams d ⟨false, true⟩ (q "500") = .multi [(.query, "limit".toList, .schema)] ∧
+    validateRequestParams d ⟨false, false⟩ { headers := [("X-Seq".toList, [['1']])] } = .ok ∧
+    validateRequestParams d ⟨false, false⟩ { query := [("limit".toList, [['5']])] } = .first (.header, "X-Seq".toList, .missing) ∧
+    validateRequestParams d ⟨true, true⟩ (q "abc") = .ok ∧
+    specFailures d ⟨false, true⟩ (q "500") = [(.query, "limit".toList, .schema)] ∧
+    (runCalls d [(⟨true, false⟩, q "abc"), (⟨false, false⟩, q "abc")]).2 = [.ok, .first (.query, "limit".toList, .parse)] := by
+  decide
+
+/-- non-vacuity of `request_errors_eq_spec_partial`: a document with an override whose applicable parameters are all in scope -/
+example :
+    let lim (req : Bool) (mx : Int) : Param := ⟨⟨.query, .form, true⟩, "limit".toList, req, false, .leaf (.prim { t := .integer, max := some mx })⟩
+    let seq : Param := ⟨⟨.header, .simple, false⟩, "X-Seq".toList, true, false, .leaf (.prim { t := .integer })⟩
+    ∀ p ∈ effective ⟨[lim true 10, seq], [lim false 100]⟩, ParamInScope p := by
+  intro lim seq p hp
+  have hp' : p = lim false 100 ∨ p = seq := by
+    have : effective ⟨[lim true 10, seq], [lim false 100]⟩ = [lim false 100, seq] := by decide
+    rw [this] at hp
+    simpa using hp
+  rcases hp' with rfl | rfl
+  · exact ⟨_, rfl, trivial, (by intro sp rq h; cases h), by decide, by decide, by decide⟩
+  · exact ⟨_, rfl, trivial, (by intro sp rq h; cases h), by decide, by decide, by decide⟩
+
+/-! ### the regenerated table Gen.RequestLoops ties `visited` to ValidateRequest's source -/
+
+/-- every statement of the two parameter loops, every binding or write of a parameter list and every call that is
+handed one was read by the extractor -/
+theorem requestLoops_recognised : ∀ r ∈ Gen.requestLoops, r.ok = true := by decide
+
+/-- ValidateRequest's parameter loops are the ones the model was written against: the lists ranged over (the
+document's own, not copies or helper results), the two `continue` guards of loop 1, the one of loop 2, the argument
+order of GetByInAndName, the ValidateParameter calls -/
+theorem requestLoops_expected : Gen.requestLoops = expectedLoops := by decide
+
+/-- **tie**: the symbolic reading of the regenerated table is the model's `visited`, for every document and option set -/
+theorem requestLoops_visited :
+    ∃ f, visitedSem Gen.requestLoops = some f ∧ ∀ d o, f d o = visited d o := by
+  rw [requestLoops_expected]
+  refine ⟨_, rfl, ?_⟩
+  intro d o
+  simp only [visited]
+  congr 1
+  · apply List.filter_congr
+    intro p _
+    simp [pathItemKept, anyGuard]
+  · apply List.filter_congr
+    intro p _
+    simp [operationKept, anyGuard]
+
+/-- the reading refuses the shapes of the two seeded changes: GetByInAndName with its arguments exchanged, and a loop
+over a helper's result instead of the document's list -/
+theorem requestLoops_refuses :
+    visitedSem (expectedLoops.map (fun r => match r with
+      | .skipIf l (.overridden rv [a, b]) => .skipIf l (.overridden rv [b, a]) | r => r)) = none ∧
+    visitedSem (expectedLoops.map (fun r => match r with
+      | .range v "pathItemParameters" => .range v "parametersToValidate(pathItemParameters, options)" | r => r)) = none := by
+  constructor <;> rfl
 
 end KinModel.Style
